@@ -108,6 +108,7 @@ Judge(e) ==
         <<"C12", /\ isc => C12_Step(cfg, pre[c], req, resp, e.day)
                  /\ \A d \in cl : C12_Counter(g2[d], post[d]) >>,
         <<"C18", IF isc THEN C18_Step(g[c], pre, post, req, resp) ELSE post = pre >>,
+        <<"C13", req.op = "Reopen" => resp.kind = "reopened" >>,      \* closing and reopening (or restarting) succeeds
         <<"C14", (HasF(e, "twin") /\ HasF(e, "http")) =>
                     C14_Step(req.op, e.twin.resp, StOfSt(e.twin.st), resp, post, e.http) >>,
         <<"C15", HasF(e, "hg") =>
